@@ -571,3 +571,199 @@ func outcomeStr(v, p bool) string {
 	}
 	return boolStr(v)
 }
+
+// ---- numeric folding (float64 domain) for reducers
+
+type numVal struct {
+	F     float64
+	IsInt bool // dynamic kind int (otherwise float64)
+}
+
+type numEnv struct {
+	vals map[string]numVal // by term key
+	fail string
+}
+
+func (e *numEnv) setFail(s string) {
+	if e.fail == "" {
+		e.fail = s
+	}
+}
+
+// num evaluates a numeric term; conversions to int truncate toward zero as Go does.
+func (e *numEnv) num(t Term) (numVal, bool) {
+	if v, ok := e.vals[key(t)]; ok {
+		return v, true
+	}
+	switch x := t.(type) {
+	case TConst:
+		switch x.Val.Kind() {
+		case constant.Int:
+			f, _ := constant.Float64Val(constant.ToFloat(x.Val))
+			return numVal{f, true}, true
+		case constant.Float:
+			f, _ := constant.Float64Val(x.Val)
+			return numVal{f, false}, true
+		}
+	case TProj:
+		if a, ok := x.X.(TAssert); ok && x.K == 0 {
+			return e.assertVal(a)
+		}
+	case TAssert:
+		return e.assertVal(x)
+	case TConv:
+		v, ok := e.num(x.X)
+		if !ok {
+			return numVal{}, false
+		}
+		b, isB := x.To.Underlying().(*types.Basic)
+		if !isB {
+			break
+		}
+		switch {
+		case b.Info()&types.IsInteger != 0:
+			f := v.F
+			if f < 0 {
+				f = -float64(int64(-f))
+			} else {
+				f = float64(int64(f))
+			}
+			return numVal{f, true}, true
+		case b.Info()&types.IsFloat != 0:
+			return numVal{v.F, false}, true
+		}
+	case TBin:
+		a, ok1 := e.num(x.X)
+		b, ok2 := e.num(x.Y)
+		if ok1 && ok2 {
+			switch x.Op {
+			case token.ADD:
+				return numVal{a.F + b.F, a.IsInt && b.IsInt}, true
+			case token.SUB:
+				return numVal{a.F - b.F, a.IsInt && b.IsInt}, true
+			case token.MUL:
+				return numVal{a.F * b.F, a.IsInt && b.IsInt}, true
+			}
+		}
+	case TUn:
+		if v, ok := e.num(x.X); ok && x.Op == token.SUB {
+			return numVal{-v.F, v.IsInt}, true
+		}
+	case TCall:
+		if x.Fun != nil && len(x.Args) == 2 {
+			a, ok1 := e.num(x.Args[0])
+			b, ok2 := e.num(x.Args[1])
+			if ok1 && ok2 {
+				switch x.Fun.FullName() {
+				case "math.Min":
+					if a.F < b.F {
+						return numVal{a.F, false}, true
+					}
+					return numVal{b.F, false}, true
+				case "math.Max":
+					if a.F > b.F {
+						return numVal{a.F, false}, true
+					}
+					return numVal{b.F, false}, true
+				}
+			}
+		}
+	}
+	e.setFail("numeric term outside the vocabulary: " + key(t))
+	return numVal{}, false
+}
+
+// assertVal: value of x.(T) when the dynamic kind matches; a mismatching single-result assertion panics (reported as failure).
+func (e *numEnv) assertVal(a TAssert) (numVal, bool) {
+	v, ok := e.num(a.X)
+	if !ok {
+		return numVal{}, false
+	}
+	b, isB := a.To.Underlying().(*types.Basic)
+	if !isB {
+		e.setFail("assertion to a non-numeric type")
+		return numVal{}, false
+	}
+	wantInt := b.Info()&types.IsInteger != 0
+	if wantInt != v.IsInt {
+		e.setFail("panic: assertion of a " + map[bool]string{true: "int", false: "float64"}[v.IsInt] + " to " + b.Name())
+		return numVal{}, false
+	}
+	return v, true
+}
+
+// cond evaluates a boolean term over numeric values: comparisons, comma-ok kind tests, type-switch tests.
+func (e *numEnv) cond(t Term) (bool, bool) {
+	switch x := t.(type) {
+	case TConst:
+		if x.Val.Kind() == constant.Bool {
+			return constant.BoolVal(x.Val), true
+		}
+	case TUn:
+		if x.Op == token.NOT {
+			v, ok := e.cond(x.X)
+			return !v, ok
+		}
+	case TProj:
+		if a, ok := x.X.(TAssert); ok && x.K == 1 {
+			return e.kindIs(a.X, a.To)
+		}
+	case TTypeIs:
+		return e.kindIs(x.X, x.To)
+	case TBin:
+		switch x.Op {
+		case token.LAND, token.LOR:
+			a, ok := e.cond(x.X)
+			if !ok {
+				return false, false
+			}
+			if (x.Op == token.LAND && !a) || (x.Op == token.LOR && a) {
+				return a, true
+			}
+			return e.cond(x.Y)
+		case token.EQL, token.NEQ, token.LSS, token.LEQ, token.GTR, token.GEQ:
+			a, ok1 := e.num(x.X)
+			b, ok2 := e.num(x.Y)
+			if !ok1 || !ok2 {
+				return false, false
+			}
+			switch x.Op {
+			case token.EQL:
+				return a.F == b.F, true
+			case token.NEQ:
+				return a.F != b.F, true
+			case token.LSS:
+				return a.F < b.F, true
+			case token.LEQ:
+				return a.F <= b.F, true
+			case token.GTR:
+				return a.F > b.F, true
+			case token.GEQ:
+				return a.F >= b.F, true
+			}
+		}
+	}
+	e.setFail("condition outside the vocabulary: " + key(t))
+	return false, false
+}
+
+func (e *numEnv) kindIs(x Term, T types.Type) (bool, bool) {
+	v, ok := e.num(x)
+	if !ok {
+		return false, false
+	}
+	if T == nil {
+		return false, true
+	}
+	b, isB := T.Underlying().(*types.Basic)
+	if !isB {
+		return false, true
+	}
+	switch {
+	case b.Kind() == types.Int:
+		return v.IsInt, true
+	case b.Kind() == types.Float64:
+		return !v.IsInt, true
+	}
+	return false, true
+}
